@@ -14,7 +14,8 @@ RULE = ("Hypothesis-drawn chain states (forked histories under short retarget pe
         "deep states with the real period) x pools of 0-6 transactions admitted through the node's own add_transaction_to_pool "
         "(fees 0 .. all-but-one) x clocks (assembly time from head-30 to head+10^4, found time >= assembly time, the clock "
         "ticking every 0/1/3/40 attempts) with, in 30% of the cases, a third peer whose connection is being torn down at the "
-        "instant of the broadcast. The REAL "
+        "instant of the broadcast, and in 30% the networking thread being inside a store flush when the find is handed to the store "
+        "(schedule injection). The REAL "
         "MinerWatcher.handle_request_scrypt_input_message / handle_scrypt_output_message run on an instance wired to a simulated "
         "node with two greeted peers and the real block store; the harness plays the miner process (summary hash per nonce) "
         "until a block is found. Oracle: the found block is reference-valid at the found-time clock and accepted by add_block; "
@@ -160,9 +161,18 @@ def execute(case):
             sh = C.construct_summary_hash(summary, height)
             t_found = max(t_found, simnet.CLOCK.now)          # the request handler may have waited
             simnet.CLOCK.now = t_found
+            race = None
+            if case.get("net_flush_race") and not deep:
+                # is this nonce a find?  (same computation as the handler)  If so, stage the race first.
+                ev_ = C.construct_pow_evidence_after_scrypt(sh, mw.coinstate, summary, height, mw.mining_args[0][2])
+                from skepticoin.datatypes import Block as _B, BlockHeader as _BH
+                if _B(_BH(summary, ev_), mw.mining_args[0][2]).hash() < summary.target:
+                    race = stage_net_flush_race(store, run, led, head, b, info)
             try:
                 with env.quiet():
                     mw.handle_scrypt_output_message(0, sh)
+                if race:
+                    race()
             except Exception as e:
                 if deep and isinstance(e, KeyError) and "chain_at_hash" in exc_sig(e):
                     # harness artefact: the handler's very last statement (wallet balance) walks the ancestors, which a
@@ -268,6 +278,52 @@ def execute(case):
             pass
 
 
+def stage_net_flush_race(store, run, led, head, b, info):
+    """schedule injection: the networking thread is inside a flush (for a block X it has just received) when the miner hands
+    its found block to the store; that flush ends -- and cleans up -- between the miner's save and the miner's own flush.
+    Correct code makes the miner wait for the lock or keeps its block.  Waiting is bounded (0.3 s), both orders are legal."""
+    import threading
+    x = run.world.build_block({"label": "netx", "parent": next(l for l, blk in run.world.blocks.items() if blk.id() == head.id),
+                               "miner": 7, "dt": run.world.safe_dt(head, 77), "txs": []})
+    if x is None:
+        return None
+    in_write, resume = threading.Event(), threading.Event()
+    orig_write, orig_add = store.write_blocks_to_disk, store.add_block_to_buffer
+    me = threading.current_thread()
+
+    def write(blocks):
+        r = orig_write(blocks)
+        if threading.current_thread() is not me and not in_write.is_set():
+            in_write.set()
+            resume.wait(0.3)
+        return r
+
+    def add(block):
+        r = orig_add(block)
+        if threading.current_thread() is me:
+            resume.set()
+            t.join(0.5)
+        return r
+
+    def net_thread():
+        orig_add(b.to_sk_block(x))
+        store.flush_blocks_to_disk()
+
+    store.write_blocks_to_disk, store.add_block_to_buffer = write, add
+    t = threading.Thread(target=net_thread)
+    t.daemon = True
+    t.start()
+    in_write.wait(0.3)
+    info["net_flush_races"] = info.get("net_flush_races", 0) + 1
+
+    def finish():
+        resume.set()
+        t.join(5)
+        store.write_blocks_to_disk, store.add_block_to_buffer = orig_write, orig_add
+        store.flush_blocks_to_disk()
+    return finish
+
+
 def second_find(case, mw, node, peers, net, led, first, t_found, d, fail, info):
     """a second miner process reports a winning candidate that was assembled on the SAME parent as the block just found:
     a found block that does not extend the head must still become part of the served state, be stored and broadcast"""
@@ -352,7 +408,7 @@ def run(shard, tier, seed):
         case = chainexec.gen_case(rnd, cfg if deepd is None else chainexec.CFGS[3], nb, 0.0, ["C01"], deep=deepd, p_tx=0.6, p_fork=0.3)
         case.update(asm_off=asm_off, found_delay=found_delay, n_pool=n_pool, fee_sel=fee_sel, nonce0=rnd.randrange(1 << 32),
                     second_find=rnd.random() < 0.5, tick_every=rnd.choice([0, 0, 1, 3, 40]), dead_peer=rnd.random() < 0.3,
-                    next_request=rnd.random() < 0.6)
+                    next_request=rnd.random() < 0.6, net_flush_race=rnd.random() < 0.3)
         try:
             fails, info = execute(case)
         except env.HarnessError as e:
@@ -366,6 +422,7 @@ def run(shard, tier, seed):
         res.count("deep_states", 1 if deepd else 0)
         res.count("second_finds_on_same_parent", info.get("second_find", 0))
         res.count("c08_f1_seen(not judged)", info.get("c08_f1_seen", 0))
+        res.count("net_flush_races", info.get("net_flush_races", 0))
         if info["pool"] or info["early_clock"] or info["boundary"]:
             res.nontrivial(env.digest(case))
         if res.evaluations in (1, 9):
